@@ -215,46 +215,10 @@ def run(eng: Engine, ck: Check):
     ct = eng.func(TMODEL, 'Transfer.cancel_tasks')
     tcls = eng.cls('Transfer', TMODEL)
 
+    from .defs import enumerated_slots
+
     def enumerated(fn, e, depth=0) -> set:
-        """Slots that the expression `e` (in function fn) enumerates in full: `self.S`, a tuple/list of those, a local list
-        they are appended to, `self.get_tasks()`-like helpers (one level).  `a or b` enumerates nothing (first non-None only)."""
-        sa = single_assignments(fn)
-        if isinstance(e, ast.Attribute) and isinstance(e.value, ast.Name) and e.value.id == 'self' and e.attr in slots:
-            return {e.attr}
-        if isinstance(e, (ast.Tuple, ast.List, ast.Set)):
-            return set().union(*[enumerated(fn, x, depth) for x in e.elts]) if e.elts else set()
-        if isinstance(e, ast.Starred):
-            return enumerated(fn, e.value, depth)
-        if isinstance(e, ast.Name):
-            out = set()
-            if e.id in sa and sa[e.id] is not None and depth < 3:
-                out |= enumerated(fn, sa[e.id], depth + 1)
-            for c in calls_on(fn.node, 'append') + calls_on(fn.node, 'extend') + calls_on(fn.node, 'add'):
-                if isinstance(c.func.value, ast.Name) and c.func.value.id == e.id and c.args:
-                    gs = [g for g, pol, _ in eng.guards_at(fn, c)]
-                    arg_slots = enumerated(fn, c.args[0], depth + 1)
-                    # an append guarded by anything but the slot's own None-test does not count
-                    if all(any(mentions_attr(g, sl) for sl in arg_slots) or (isinstance(c.args[0], ast.Name) and mentions_name(g, c.args[0].id))
-                           for g in gs):
-                        out |= arg_slots
-            return out
-        if isinstance(e, ast.Call) and isinstance(e.func, ast.Attribute) and isinstance(e.func.value, ast.Name) and \
-                e.func.value.id == 'self' and e.func.attr in tcls.methods and depth < 2:
-            m = tcls.methods[e.func.attr]
-            out = set()
-            rets = [r.value for r in walk_local(m.node) if isinstance(r, ast.Return) and r.value is not None]
-            if len(rets) == 1:
-                out = enumerated(m, rets[0], depth + 1)
-            return out
-        if isinstance(e, ast.Call) and call_name(e) in ('list', 'tuple', 'set', 'sorted') and e.args:
-            return enumerated(fn, e.args[0], depth)
-        if isinstance(e, (ast.ListComp, ast.GeneratorExp, ast.SetComp)) and len(e.generators) == 1 and \
-                isinstance(e.elt, ast.Name) and isinstance(e.generators[0].target, ast.Name) and e.elt.id == e.generators[0].target.id:
-            g = e.generators[0]
-            # a filter may only drop empty (None) or finished entries
-            if all(mentions_name(i, e.elt.id) and ('None' in unparse(i) or 'done()' in unparse(i) or unparse(i) == e.elt.id) for i in g.ifs):
-                return enumerated(fn, g.iter, depth)
-        return set()
+        return enumerated_slots(eng, slots, fn, e, depth)
 
     cancelled, extra = set(), []
     for c in calls_on(ct.node, 'cancel'):
